@@ -20,7 +20,7 @@ INVS = ["InvResidual", "InvDescent", "InvKktAtFixpoint", "InvIcptJoint", "InvIcp
 ACTIONS = ["CoordStep", "SweepEnd"]
 
 GEN = {
-    "quick": dict(NS="{3, 4}", XV="{0, 1, 2, 3}", XOff=1, YV="{0, 1, 3}", PS="{1, 2}", TS="{2}",
+    "quick": dict(NS="{3, 4}", XV="{0, 1, 2, 3}", XOff=1, YV="{0, 1, 3}", PS="{1, 2}", TS="{1, 2}",
                   XThin1=1, XThin2=8, YThin1=20, YThin2=80, CThin=21, OThin=3, F32Mod=4),
     "thorough": dict(NS="{3, 4, 5}", XV="{0, 1, 2, 3}", XOff=1, YV="{0, 1, 3}", PS="{1, 2}", TS="{1, 2, 3}",
                      XThin1=1, XThin2=6, YThin1=15, YThin2=150, CThin=40, OThin=4, F32Mod=4),
